@@ -53,6 +53,11 @@ VX void verif_c01_layout(unsigned long* out)
 	out[15]				= (unsigned long) &q->prefactor;
 }
 
+VX Interpolation* verif_c09_new(unsigned n, const double* xs, const double* ys)
+{
+	std::vector<double> x(xs, xs + n), y(ys, ys + n);
+	return new Interpolation(x, y);
+}
 VX double verif_c01_eval(Interpolation* f, double x) { return f->Interpolate(x); }
 VX double verif_c01_call(Interpolation* f, double x) { return (*f)(x); }
 VX double verif_c01_deriv(Interpolation* f, double x, unsigned k) { return f->Derivative(x, k); }
@@ -127,6 +132,37 @@ VX double verif_c01_raw(unsigned n, const double* xs, const double* ys, const do
 		case 20: return f->Locate(x);
 	}
 	return 0;
+}
+// a short history on one real-constructor object: ops[k] in {0 Interpolate(a), 1 Derivative(a,1), 10 Integrate(a,b), 11 Local_Minimum, 12 Local_Maximum, 13/14 Global_*, 20 Locate(a), 30 Set_Prefactor(a), 31 Multiply(a), 40 copy-assign to a second object and continue on the copy}
+VX double verif_c09_history(unsigned n, const double* xs, const double* ys, unsigned nops, const int* ops, const double* a, const double* b)
+{
+	Interpolation* f = verif_c09_new(n, xs, ys);
+	double last		 = 0;
+	for(unsigned k = 0; k < nops; k++)
+	{
+		switch(ops[k])
+		{
+			case 0: last = f->Interpolate(a[k]); break;
+			case 1: last = f->Derivative(a[k], 1); break;
+			case 5: last = f->Derivative(a[k], 0); break;
+			case 10: last = f->Integrate(a[k], b[k]); break;
+			case 11: last = f->Local_Minimum(a[k], b[k]); break;
+			case 12: last = f->Local_Maximum(a[k], b[k]); break;
+			case 13: last = f->Global_Minimum(); break;
+			case 14: last = f->Global_Maximum(); break;
+			case 20: last = f->Locate(a[k]); break;
+			case 30: f->Set_Prefactor(a[k]); break;
+			case 31: f->Multiply(a[k]); break;
+			case 40:
+			{
+				Interpolation* g = new Interpolation();
+				*g				 = *f;
+				f				 = g;
+				break;
+			}
+		}
+	}
+	return last;
 }
 // two queries in sequence on one object (history): returns the second result
 VX double verif_c09_seq(unsigned n, const double* xs, const double* ys, double pref, unsigned jlast, int corr, int op, double x, double x2)
